@@ -134,6 +134,14 @@ impl<'a> PacketReader<'a> {
     }
 }
 
+#[cfg(minimq_verif)]
+impl PacketReader<'_> {
+    /// Verification hook: (read_bytes, packet_length).
+    pub(crate) fn verif_progress(&self) -> (usize, Option<usize>) {
+        (self.read_bytes, self.packet_length)
+    }
+}
+
 #[cfg(test)]
 mod test {
     use super::PacketReader;
